@@ -2,8 +2,10 @@ package main
 
 import (
 	"bytes"
+	"errors"
 	"fmt"
 	"sort"
+	"strings"
 	"sync"
 	"time"
 
@@ -346,6 +348,7 @@ func (n *nsNode) encState() []uint64 {
 	out = append(out, uint64(len(ss)))
 	for _, s := range ss {
 		out = append(out, s.meta.Index, s.meta.Term, s.meta.ConfigurationIndex, uint64(len(s.data)/8))
+		out = append(out, encConfig(s.meta.Configuration)...)
 	}
 	n.snaps.mu.Unlock()
 	return out
@@ -617,6 +620,36 @@ func nsExec(in []uint64) (obs []uint64, info map[string]int) {
 				continue
 			}
 			emit([]uint64{10, uint64(n.r.VerifFollowerTimeoutDecision())})
+		case 9:
+			// takeSnapshot (the snapshot goroutine's work), with the main loop's answer to configurationsCh served
+			p++
+			cut, fails := readTail()
+			if !n.up {
+				emit([]uint64{0})
+				continue
+			}
+			n.orc.bits = fails
+			n.rec.reset(cut)
+			stop := make(chan struct{})
+			go n.r.VerifServeConfigurations(stop)
+			_, err := n.r.VerifTakeSnapshot()
+			close(stop)
+			code := uint64(0)
+			if err != nil {
+				msg := err.Error()
+				switch {
+				case errors.Is(err, raft.ErrNothingNewToSnapshot):
+					code = 2
+				case strings.Contains(msg, "cannot take snapshot now"):
+					code = 3
+				case strings.Contains(msg, "compaction failed"), strings.Contains(msg, "first log index"):
+					code = 5
+				default:
+					code = 4
+				}
+			}
+			info["snapshots_taken"] += int(b2u(code == 0))
+			finish([]uint64{code}, false, cut, ^uint64(0))
 		default:
 			p = len(ev)
 		}
